@@ -14,7 +14,7 @@ import numpy as np  # noqa: E402
 from summer2 import CompartmentalModel, Stratification, AgeStratification, StrainStratification  # noqa: E402
 from summer2 import Multiply, Overwrite  # noqa: E402
 from summer2.parameters import Parameter, Time, CompartmentValues, DerivedOutput, Function  # noqa: E402
-from summer2.functions.time import get_piecewise_function, get_linear_interpolation_function  # noqa: E402
+from summer2.functions.time import get_piecewise_function, get_linear_interpolation_function, get_sigmoidal_interpolation_function  # noqa: E402
 from summer2.functions.util import capture_array  # noqa: E402
 import summer2.flows as sflows  # noqa: E402
 
@@ -52,6 +52,10 @@ def expr(e):
         return get_piecewise_function([expr(b) for b in v[1]], [expr(b) for b in v[2]], x_axis=expr(v[0]))
     if k == "lin":
         return get_linear_interpolation_function([expr(b) for b in v[1]], [expr(b) for b in v[2]], x_axis=expr(v[0]))
+    if k == "sig":
+        # sigmoidal interpolation (implementation-side oracles only; the Gallina expression language has no such node)
+        return get_sigmoidal_interpolation_function([expr(b) for b in v[1]], [expr(b) for b in v[2]], x_axis=expr(v[0]),
+                                                    **({"curvature": num(v[3])} if len(v) > 3 else {}))
     raise ValueError(e)
 
 
@@ -165,6 +169,8 @@ def apply_op(m, o):
         m.add_computed_value_func(o["name"], expr(o["e"]))
     elif k == "finalize":
         m.finalize()
+    elif k == "setdefaults":
+        m.set_default_parameters({a: num(b) for a, b in (o.get("params") or {}).items()})
     else:
         raise ValueError(k)
 
